@@ -149,7 +149,56 @@ func lastReq(o *Out) string { return o.last }
 
 var negOf = map[string]string{"eq": "ne", "in": "notin", "empty": "notempty", "matches": "notmatches"}
 
+// negSystematic: the complement law on the complete product of scalar kind x literal class
+// (equal, nearby, other base / spelling, out of range for the kind, midpoint of two float32
+// values, ill-typed …) x container shape x operator spelling — not left to random choice.
+func negSystematic(g *Gen, o *Out) {
+	pair := func(pos GMatch, datum interface{}, what string) {
+		neg := pos
+		neg.Op = negOf[pos.Op]
+		rp, tp, ok1 := evalG(g, o, nil, pos, datum)
+		rn, _, ok2 := evalG(g, o, nil, neg, datum)
+		if !ok1 || !ok2 || rp == "P" || rn == "P" {
+			return
+		}
+		o.count("systematic:" + pos.Op + ":" + norm(rp))
+		if notOf(norm(rp)) != norm(rn) {
+			o.finding(Finding{Property: "C04", Kind: "failing-input", What: fmt.Sprintf("%s: %s gives %s but %s gives %s", what, pos.Op, rp, neg.Op, rn), Request: lastReq(o), Detail: tp})
+		}
+		if pos.Op == "in" {
+			flip := pos
+			flip.Contains = !pos.Contains
+			if rf, _, ok3 := evalG(g, o, nil, flip, datum); ok3 && rf != rp {
+				o.finding(Finding{Property: "C04", Kind: "failing-input", What: fmt.Sprintf("%s: in gives %s but contains gives %s", what, rp, rf), Request: lastReq(o), Detail: tp})
+			}
+		}
+	}
+	for _, e := range scalarElems() {
+		ev := reflect.ValueOf(e.val)
+		if ev.Kind() == reflect.Struct || ev.Kind() == reflect.Slice || ev.Kind() == reflect.Complex128 {
+			continue
+		}
+		t := ev.Type()
+		other := g.randValue(t, 1)
+		sl := reflect.MakeSlice(reflect.SliceOf(t), 2, 2)
+		sl.Index(0).Set(other)
+		sl.Index(1).Set(ev)
+		arr := reflect.New(reflect.ArrayOf(2, t)).Elem()
+		arr.Index(0).Set(ev)
+		arr.Index(1).Set(other)
+		datum := map[string]interface{}{"v": e.val, "s": sl.Interface(), "a": arr.Interface(), "i": []interface{}{other.Interface(), e.val}}
+		lits := append(g.literalsFor(ev), g.literalsFor(other)...)
+		for _, lit := range lits {
+			pair(GMatch{Path: []string{"v"}, Op: "eq", Raw: lit, LitStyle: 2}, datum, e.name)
+			for _, c := range []string{"s", "a", "i"} {
+				pair(GMatch{Path: []string{c}, Op: "in", Raw: lit, LitStyle: 2, Contains: g.r.Intn(2) == 0}, datum, c+" of "+e.name)
+			}
+		}
+	}
+}
+
 func fragNeg(g *Gen, n int, o *Out) {
+	negSystematic(g, o)
 	for i := 0; i < n; i++ {
 		datum, _, paths := datumAndPaths(g, "bexpr")
 		var opts []OptSpec
@@ -220,6 +269,12 @@ func fragNeg(g *Gen, n int, o *Out) {
 			rb, _, okb := evalG(g, o, opts, b, datum)
 			if oka && okb && ra != rb {
 				o.finding(Finding{Property: "C04", Kind: "failing-input", What: "contains and in differ: " + ra + " vs " + rb, Request: lastReq(o)})
+			}
+			// the complement of each spelling, on the same literal and datum
+			na := a
+			na.Op = "notin"
+			if rna, _, okn := evalG(g, o, opts, na, datum); oka && okn && ra != "P" && rna != "P" && notOf(norm(ra)) != norm(rna) {
+				o.finding(Finding{Property: "C04", Kind: "failing-input", What: fmt.Sprintf("contains gives %s but not contains gives %s", ra, rna), Request: lastReq(o)})
 			}
 		}
 	}
@@ -987,9 +1042,9 @@ func fragHidden(g *Gen, n int, o *Out) {
 	hiddenThroughQuantifier(g, o)
 	hiddenInEmbedded(g, o)
 	hiddenRenameCollision(g, o)
-	tags := []string{"bexpr", "json"}
+	tags := []string{"bexpr", "json", "étiq"} // a tag key may hold any byte but blank, quote, colon and controls
 	for i := 0; i < n; i++ {
-		tag := tags[g.r.Intn(2)]
+		tag := tags[g.r.Intn(3)]
 		var opts []OptSpec
 		if tag != "bexpr" {
 			opts = append(opts, OptSpec{Kind: "tag", Tag: tag})
@@ -1020,7 +1075,7 @@ func fragHidden(g *Gen, n int, o *Out) {
 		var paths []PathInfo
 		enumPaths(v1, tag, nil, 4, &paths)
 		// add hidden names explicitly
-		hiddenNames := []string{"Token", "APIKey", "key", "jkey", "Owner", "Creds", "Hidden", "secret", "Secret", "AltSec", "priv", "hid", "X", "hid", "Both", "J", "jay", "why", "Y", "Tagged", "vis2", "jvis2", "Opt"}
+		hiddenNames := []string{"Token", "APIKey", "key", "jkey", "Owner", "Creds", "Hidden", "secret", "Secret", "AltSec", "priv", "hid", "X", "hid", "Both", "J", "jay", "why", "Y", "Tagged", "vis2", "jvis2", "Opt", "UniSec", "uvis2", "ukey"}
 		var withHidden []PathInfo
 		withHidden = append(withHidden, paths...)
 		for _, p := range paths {
@@ -1054,6 +1109,56 @@ func fragHidden(g *Gen, n int, o *Out) {
 		o.count("pair:" + norm(r1))
 		if r1 != r2 {
 			o.finding(Finding{Property: "C08", Kind: "failing-input", What: "data differing only in hidden fields give " + r1 + " vs " + r2, Request: lastReq(o), Detail: text})
+		}
+		// systematically: every field that is hidden under this tag name, below every struct of the
+		// datum, named by its Go name: the selector must fail (C08: "never resolves to its content") and
+		// the two data must agree
+		if g.r.Intn(3) == 0 {
+			structPaths := []PathInfo{{Parts: nil, Val: v1}}
+			structPaths = append(structPaths, paths...)
+			done := 0
+			for _, p := range structPaths {
+				sv := unwrapIP(p.Val)
+				if !sv.IsValid() || sv.Kind() != reflect.Struct || done >= 12 {
+					continue
+				}
+				for fi := 0; fi < sv.NumField(); fi++ {
+					f := sv.Type().Field(fi)
+					tv := f.Tag.Get(tag)
+					if j := strings.Index(tv, ","); j >= 0 {
+						tv = tv[:j]
+					}
+					if f.PkgPath == "" && tv != "-" {
+						continue
+					}
+					if f.Anonymous {
+						continue
+					}
+					lit := "x"
+					if fv := sv.Field(fi); fv.Kind() == reflect.String {
+						lit = fv.String()
+					}
+					for _, op := range []string{"eq", "ne", "empty", "matches"} {
+						m := GMatch{Path: append(append([]string{}, p.Parts...), f.Name), Op: op, Raw: lit, LitStyle: 2}
+						if op == "matches" {
+							m.Raw, m.LitStyle = ".*", 3
+						}
+						ht, _, okh := g.renderTop(m)
+						if !okh {
+							continue
+						}
+						h1 := evalText(o, opts, ht, d1)
+						h2 := evalText(o, opts, ht, d2)
+						done++
+						o.count("hidden-name:" + norm(h1))
+						if h1 != h2 {
+							o.finding(Finding{Property: "C08", Kind: "failing-input", What: fmt.Sprintf("data differing only in hidden fields give %s vs %s for a selector naming the hidden field %s (tag name %s)", h1, h2, f.Name, tag), Request: lastReq(o), Detail: ht})
+						} else if norm(h1) != "E" && h1 != "P" {
+							o.finding(Finding{Property: "C08", Kind: "failing-input", What: fmt.Sprintf("a selector naming the field %s, hidden under the tag name %s, resolves (%s)", f.Name, tag, h1), Request: lastReq(o), Detail: ht})
+						}
+					}
+				}
+			}
 		}
 		// filters keep the same positions / keys
 		if (v1.Kind() == reflect.Slice || v1.Kind() == reflect.Map) && tag == "bexpr" {
@@ -1155,14 +1260,18 @@ func matrixShapes() []shape {
 // ([]T, [N]T, [0]T, *T, *[N]T, *[]T, []*T, [N]*T, map[string]T, []interface{}{T}, [1]interface{}{T}); the element
 // is the value the literal "1" denotes in that type where there is one.  The Go TYPE of the data is
 // what several seeded changes depended on (byte arrays vs byte slices, addressability, defined types).
-func systematicShapes() []shape {
-	elems := []shape{
+func scalarElems() []shape {
+	return []shape{
 		{"bool", true}, {"int", 1}, {"int8", int8(1)}, {"int16", int16(1)}, {"int32", int32(1)}, {"int64", int64(1)},
 		{"uint", uint(1)}, {"uint8", uint8('1')}, {"uint16", uint16(1)}, {"uint32", uint32(1)}, {"uint64", uint64(1)},
 		{"float32", float32(1)}, {"float64", 1.0}, {"string", "1"}, {"MyStr", MyStr("1")}, {"MyInt", MyInt(1)}, {"MyBool", MyBool(true)},
 		{"Octet", Octet('1')}, {"MyFloat32", MyFloat32(1)}, {"json.Number", jsonNumber("1")}, {"struct", Inner{}}, {"[]byte", []byte("1")},
 		{"complex128", complex128(1)},
 	}
+}
+
+func systematicShapes() []shape {
+	elems := scalarElems()
 	var out []shape
 	for _, e := range elems {
 		ev := reflect.ValueOf(e.val)
